@@ -83,7 +83,12 @@ type W struct {
 	sigCount map[string]int
 	replay   *VRec
 	stop     bool
+	caseTag  string
 }
+
+// SetCase tags the violations of the following explorations with a case string (kept in the
+// replay file and available through Replaying().Case).
+func (w *W) SetCase(s string) { w.caseTag = s }
 
 const maxSameSig = 3
 
@@ -225,7 +230,7 @@ func (w *W) account(e *Env) {
 		if w.sigCount[v.Sig] > maxSameSig {
 			continue
 		}
-		w.emit("V", VRec{Sig: v.Sig, Detail: v.Detail, Scenario: w.name, Choices: e.Choices})
+		w.emit("V", VRec{Sig: v.Sig, Detail: v.Detail, Scenario: w.name, Choices: e.Choices, Case: w.caseTag})
 	}
 	// a scenario whose every schedule fails the same way is uninformative beyond the first few
 	tot := 0
